@@ -39,6 +39,10 @@ func (w *IntegWorld) ConfigMap() map[string]interface{} {
 		}
 		if t.TimeoutMS > 0 {
 			m["timeout"] = fmt.Sprintf("%dms", t.TimeoutMS)
+			if t.TimeoutMS%100 == 0 && (t.TimeoutMS/100)%2 == 1 {
+				// the same duration in fractional notation (500ms = "0.5s", 1300ms = "1.3s")
+				m["timeout"] = fmt.Sprintf("%d.%ds", t.TimeoutMS/1000, (t.TimeoutMS%1000)/100)
+			}
 		}
 		if t.Context != "" {
 			m["context"] = t.Context
@@ -259,6 +263,17 @@ func (e *integEngine) checkC08() {
 			c.Count("c08_conditions_checked")
 			continue
 		}
+		if pwd, ok := r.Info.Env["PWD"]; ok && pwd != os.Getenv("PWD") {
+			// (taskctl does not export the working directory as PWD: every process sees taskctl's own)
+			for _, g := range e.w.AllGraphs() {
+				for _, o := range g.Stages {
+					if o != st && o.Dir != "" && strings.HasPrefix(pwd, o.Dir[:strings.LastIndex(o.Dir, "/")+1]) && pwd != r.Info.Dir {
+						c.Violate("C08", "dir-override", "%s, command %s: environment variable PWD=%q - the directory given on stage %s", where, r.Info.Key, pwd, o.Name)
+						return
+					}
+				}
+			}
+		}
 		leakFrom := func(name, val string, env bool) string {
 			for _, g := range e.w.AllGraphs() {
 				for _, o := range g.Stages {
@@ -370,6 +385,9 @@ func (e *integEngine) checkC08() {
 	// compile (variable lost) shows up here
 	for _, g := range e.w.AllGraphs() {
 		for _, s := range g.Stages {
+			if s.Nested != nil {
+				continue
+			}
 			found := false
 			for gid, sn := range e.stageGID {
 				if sn != s.Name {
